@@ -4,6 +4,7 @@ import M3d.Model.MeshDiag
 import M3d.Model.MeshDiagSweep
 import M3d.Model.MeshDiagHist
 import M3d.Model.MeshDiagProbe
+import M3d.Model.MeshDiagSelf
 /-!
 Line-protocol handler for C11.  Core-only.
 
@@ -27,6 +28,7 @@ The harness prints the same canonical form from the REAL outputs; a difference i
     rnm3   -> ok groups=<idx:flag,…|…> flip=<idx…> n=<count> clean=<b>  |  panic:<msg>
     rn3    -> flip=<idx…> n=<count> clean=<b>  |  unclear:<i> (something touches the normal line of face i within eps·65/64: never generated)
     rep3   -> cls=<min id of the class, per vertex> fix=1 nr=<b>
+    self3  -> n=<Mesh.SelfIntersections(): ordered pairs of faces for which Triangle.TriangleCollisions reports a segment>
     hier3  -> ok nodes=<c0>|<c1>… par=<p…> full=ok cont=<bits>  |  panic:mesh_needs_repair
     diag2  -> man=<b> iv=<ids>
     rn2    -> flip=<idx…> n=<count> clean=<b>  |  unclear:<i>
@@ -813,6 +815,32 @@ def handleHist2 (ss : List Seg) (steps : List String) : Option String := do
 
 /-! ### dispatch -/
 
+/-! ### `self3`: `Mesh.SelfIntersections` (round 7) -/
+
+/-- `math.Sqrt` for the exact mode (as in the C07 driver): exact on squares of rationals, otherwise accurate to
+2⁻⁶⁰ relative — only compared against thresholds the generated inputs keep far away. -/
+def sqrtQ (q : Rat) : Rat :=
+  if q ≤ 0 then 0 else
+  let n := q.num.toNat
+  let d := q.den
+  let rn := Nat.sqrt n
+  let rd := Nat.sqrt d
+  if rn * rn = n ∧ rd * rd = d then (rn : Rat) / (rd : Rat)
+  else
+    let k : Nat := 2 ^ 160
+    ((Nat.sqrt (n * k / d) : Nat) : Rat) / ((2 : Rat) ^ 80)
+
+def colV3 (p : P3) : M3d.Col.V3 Rat := ⟨p.x, p.y, p.z⟩
+
+/-- `self3`: the exhaustive definition (`M3d.C11.self_intersections_eq_exhaustive`: equal to the count through every
+hierarchy); the faithful model over a binary hierarchy and over a single flat node run next to it. -/
+def handleSelf3 (ts : List Tri) (cs : Array P3) : String :=
+  let faces : List (M3d.Col.Tri3 Rat) := ts.map fun t => (colV3 cs[t.1]!, colV3 cs[t.2.1]!, colV3 cs[t.2.2]!)
+  let eps : Rat := (1 : Rat) / 100000000
+  let spec := M3d.MeshDiagSelf.selfIntersectionsDef sqrtQ eps faces
+  let model := M3d.MeshDiagSelf.selfIntersections sqrtQ eps (M3d.MeshDiagSelf.splitTree faces.length faces) faces
+  if model == spec then s!"n={spec}" else s!"MODELDIFF:self spec={spec} model={model}"
+
 def handleAll (ws : List String) : Option String := do
   let kind ← ws.head?
   let is2 := kind.endsWith "2"
@@ -864,6 +892,7 @@ def handleAll (ws : List String) : Option String := do
     | "rn3" => some (handleRn3 ts (← eps) cs)
     | "rep3" => some (handleRep3 ts (← eps) cs)
     | "hier3" => some (handleHier3 ts cs qs)
+    | "self3" => if cs.size == 0 then none else some (handleSelf3 ts cs)
     | _ => none
 
 end M3d.Drv.C11
